@@ -49,12 +49,17 @@ type c16Case struct {
 	// conservation and non-overlap clauses are judged then; the order clauses
 	// of the statement are about what a listener sees of sequential operations.
 	Pairs bool
+	// Fault (file back-end, sequential histories): a disk fault during operation number Target
+	Fault fsFault
 }
 
 func (k *c16Case) Describe() []string {
 	l := []string{"store " + k.Cfg.String(), "mailboxes " + strings.Join(k.Names, " | ")}
 	if k.Pairs {
 		l = append(l, "operations 2i and 2i+1 run concurrently")
+	}
+	if k.Fault.On {
+		l = append(l, k.Fault.String())
 	}
 	for i, o := range k.Ops {
 		l = append(l, fmt.Sprintf("%3d %s", i, o))
@@ -115,6 +120,9 @@ func genC16(w *simrt.Choices, tier string, avoid map[string]bool) Case {
 			o.Box, o.Ref = k.Ops[i-1].Box, k.Ops[i-1].Ref // both clients delete the same message
 		}
 		k.Ops = append(k.Ops, o)
+	}
+	if k.Cfg.Backend == "file" && !k.Pairs {
+		k.Fault = genFSFault(w, len(k.Ops))
 	}
 	return k
 }
@@ -181,7 +189,25 @@ func runC16(c *Ctx, cs Case) {
 		}
 	}
 	tok := 0
+	firedAt := map[int]bool{}
+	faulted := func(i int) bool { return firedAt[i] }
+	doOp1 := func(i int, o c16Op, mytok int) {}
 	doOp := func(i int, o c16Op, mytok int) {
+		if k.Fault.On && k.Fault.Target == i {
+			before := fsFired(c.Sim)
+			disarm := k.Fault.arm(c.Sim)
+			// whether the fault fired is only known afterwards: errors of this operation are judged then
+			firedAt[i] = true
+			doOp1(i, o, mytok)
+			disarm()
+			if fsFired(c.Sim) == before {
+				firedAt[i] = false
+			}
+			return
+		}
+		doOp1(i, o, mytok)
+	}
+	doOp1 = func(i int, o c16Op, mytok int) {
 		switch o.Kind {
 		case "deliver":
 			var rcpts []*policy.Recipient
@@ -195,6 +221,10 @@ func runC16(c *Ctx, cs Case) {
 			from, _ := ap.ParseOrigin("sender@example.org")
 			body := bodyFromSeed(uint64(mytok), fmt.Sprintf("tok%d", mytok), o.Size)
 			if err := mgr.Deliver(from, rcpts, "Received: from sim ([192.0.2.7]) by inbucket\r\n", body); err != nil {
+				if faulted(i) {
+					c.Stat("probe.operation_failed_after_disk_fault", 1)
+					return
+				}
 				c.Failf(tagOf(k.Cfg)+"/Deliver->error", "op %d %s: %v", i, o, err)
 				return
 			}
@@ -203,7 +233,7 @@ func runC16(c *Ctx, cs Case) {
 				_ = st.RemoveMessage(o.Box, l[o.Ref%len(l)])
 			}
 		case "purge":
-			if err := st.PurgeMessages(o.Box); err != nil {
+			if err := st.PurgeMessages(o.Box); err != nil && !faulted(i) {
 				c.Failf(tagOf(k.Cfg)+"/PurgeMessages->error", "op %d %s: %v", i, o, err)
 			}
 		case "retention":
@@ -211,7 +241,7 @@ func runC16(c *Ctx, cs Case) {
 				simrt.Sleep(2 * time.Hour)
 			}
 			rs := storage.NewRetentionScanner(config.Storage{RetentionPeriod: time.Hour, RetentionSleep: 0}, st)
-			if err := rs.DoScan(context.Background()); err != nil {
+			if err := rs.DoScan(context.Background()); err != nil && !faulted(i) {
 				c.Failf(tagOf(k.Cfg)+"/DoScan->error", "op %d: %v", i, err)
 			}
 		}
